@@ -142,7 +142,7 @@ def harness_hash():
     for root in (SPEC, os.path.join(VERIF, "harness"), os.path.join(VERIF, "lib")):
         for dp, _, fs in sorted(os.walk(root)):
             for f in sorted(fs):
-                if f.endswith((".tla", ".cfg", ".go", ".txt", ".py", ".mod")):
+                if f.endswith((".tla", ".cfg", ".go", ".txt", ".py", ".mod")) and f != "manifest_data.py":
                     h.update(f.encode())
                     with open(os.path.join(dp, f), "rb") as fh:
                         h.update(fh.read())
